@@ -167,6 +167,29 @@ func wideFolder(rt *rapid.T, kids []*tnode) []*tnode {
 	return append(kids, nd)
 }
 
+// deepChain: in one case of forty the tree also has a chain of 253-258 nested folders with a file at the bottom, so that
+// item paths have more segments than fit one byte of their 16-bit segment count.
+func deepChain(rt *rapid.T, kids []*tnode) []*tnode {
+	if rapid.IntRange(0, 39).Draw(rt, "deep") != 0 {
+		return kids
+	}
+	for _, k := range kids {
+		if k.name == "deep" {
+			return kids
+		}
+	}
+	n := rapid.SampledFrom([]int{253, 254, 255, 256, 258}).Draw(rt, "deepLevels")
+	top := &tnode{name: "deep", dir: true}
+	cur := top
+	for i := 1; i < n; i++ {
+		nx := &tnode{name: "d", dir: true}
+		cur.kids = append(cur.kids, nx)
+		cur = nx
+	}
+	cur.kids = append(cur.kids, &tnode{name: "bottom.txt", data: []byte("the file at the bottom of the chain")})
+	return append(kids, top)
+}
+
 func sortKids(k []*tnode) []*tnode {
 	s := append([]*tnode{}, k...)
 	sort.Slice(s, func(i, j int) bool { return s[i].name < s[j].name })
@@ -402,6 +425,7 @@ func c10download(ev *evid.Rec) func(rt *rapid.T) {
 		}
 		kids := genTree(rt, "t", 0, &budget, true)
 		kids = wideFolder(rt, kids)
+		kids = deepChain(rt, kids)
 		kids = decorate(rt, "f", kids)
 		preserve := rapid.Bool().Draw(rt, "preserveResourceForks") // the option governs what uploads keep, not what downloads send
 		script := rapid.SliceOfN(rapid.IntRange(0, 9), 60, 60).Draw(rt, "script")
@@ -459,6 +483,7 @@ func c10upload(ev *evid.Rec) func(rt *rapid.T) {
 		}
 		kids := genTree(rt, "t", 0, &budget, false)
 		kids = wideFolder(rt, kids)
+		kids = deepChain(rt, kids)
 		// some clients end the information fork of an item right after the name (items are streamed without a comment)
 		hlref.ShortInfoFork = rapid.Bool().Draw(rt, "shortInfoFork")
 		defer func() { hlref.ShortInfoFork = false }()
